@@ -221,12 +221,22 @@ def generate(src, die, coq_str):
            "  | A_is_redirect | A_also_block_redirect | A_is_badfilter | A_has_tag | A_id_cancelled | A_exists.",
            "Inductive pcond := PTrue | PAtom (a : patom) | PNot (c : pcond) | PAnd (a b : pcond) | POr (a b : pcond)."]
 
+    # (a renamed loop variable / parameter is not a change of structure: normalise it to `filter`)
+    def rename(text, var):
+        return text if var == "filter" else re.sub(r"\b%s\b" % re.escape(var), "filter", text)
+
     # ---- Blocker::new
-    body = fn_body(b, r"pub fn new\(\s*network_filters: Vec<NetworkFilter>,\s*options: &BlockerOptions\s*\)\s*->\s*Blocker\s*\{", die)
-    m = re.search(r"for filter in network_filters\s*\{", body)
+    m = re.search(r"pub fn new\(\s*(\w+): Vec<NetworkFilter>,\s*(\w+): &BlockerOptions\s*\)\s*->\s*Blocker\s*\{", b)
+    if not m:
+        die("Blocker::new not found")
+    vec_name, opt_name = m.group(1), m.group(2)
+    body = fn_body(b, r"pub fn new\(\s*\w+: Vec<NetworkFilter>,\s*\w+: &BlockerOptions\s*\)\s*->\s*Blocker\s*\{", die)
+    body = re.sub(r"\b%s\b" % re.escape(opt_name), "options", body)
+    m = re.search(r"for (\w+) in %s\s*\{" % re.escape(vec_name), body)
     if not m:
         die("Blocker::new: main loop not found")
     loop, _ = block_at(body, m.end() - 1, die)
+    loop = rename(loop, m.group(1))
     sts = [x for x in statements(loop, die) if x[0] == "if"]
     if len(sts) != 3:
         die("Blocker::new: expected skip / redirects / category if-statements, found %d" % len(sts))
@@ -244,6 +254,7 @@ def generate(src, die, coq_str):
     if len(built) != 8:
         die("Blocker::new: expected 8 NetworkFilterList::new fields, found %d" % len(built))
     out.append("(* Blocker::new: (field, source vector, optimize flag = options.enable_optimizations?) *)")
+    built = sorted(built)   # the order of the struct literal's fields is immaterial
     out.append("Definition new_lists : list (string * string * bool) := [%s]." % "; ".join(
         "(\"%s\", \"%s\", %s)" % (f, "" if v.startswith("Vec") else v, "true" if o == "options.enable_optimizations" else "false")
         for f, v, o in built))
@@ -252,7 +263,10 @@ def generate(src, die, coq_str):
             die("Blocker::new: unknown optimize flag %r" % o)
 
     # ---- Blocker::add_filter
-    body = fn_body(b, r"pub fn add_filter\(&mut self, filter: NetworkFilter\)\s*->\s*Result<\(\), BlockerError>\s*\{", die)
+    m = re.search(r"pub fn add_filter\(&mut self, (\w+): NetworkFilter\)", b)
+    if not m:
+        die("Blocker::add_filter not found")
+    body = rename(fn_body(b, r"pub fn add_filter\(&mut self, \w+: NetworkFilter\)\s*->\s*Result<\(\), BlockerError>\s*\{", die), m.group(1))
     sts = [x for x in statements(body, die) if x[0] == "if"]
     if len(sts) != 3:
         die("Blocker::add_filter: expected guard / redirects / category if-statements, found %d" % len(sts))
@@ -262,7 +276,10 @@ def generate(src, die, coq_str):
     out.append(coq_chain("add_chain", flatten_chain(sts[2], die)))
 
     # ---- Blocker::filter_exists
-    body = fn_body(b, r"pub fn filter_exists\(&self, filter: &NetworkFilter\)\s*->\s*bool\s*\{", die)
+    m = re.search(r"pub fn filter_exists\(&self, (\w+): &NetworkFilter\)", b)
+    if not m:
+        die("Blocker::filter_exists not found")
+    body = rename(fn_body(b, r"pub fn filter_exists\(&self, \w+: &NetworkFilter\)\s*->\s*bool\s*\{", die), m.group(1))
     sts = [x for x in statements(body, die) if x[0] == "if"]
     if len(sts) != 1:
         die("Blocker::filter_exists: expected one if-chain")
